@@ -85,7 +85,7 @@ Qed.
 End Rewrite.
 
 (* ------------------------------------------------------------------ Part 2: the invariant carried with Topo *)
-Require Import Grits.proofs.RtSubst Grits.proofs.StepErrors Grits.proofs.RtSafety Grits.proofs.TopoLin.
+Require Import Grits.proofs.RtSubst Grits.proofs.StepErrors Grits.proofs.RtSafety Grits.proofs.TopoLin Grits.proofs.RuntimeFacts.
 
 Definition msg_lin (k : cid) (m : msg) : Prop := NoDup (refs (OMsg k m)).
 
@@ -248,6 +248,59 @@ Proof.
       * destruct Hobj' as [_ H]. destruct Hr as [_ Hr]. eapply (Hr (OMsg k' m')); eauto.
 Qed.
 
+(* the receiver is the provider of k: the message is a negative one (it refers to k) *)
+Lemma topo_recv_self c p pp n k st m pp' (clk : bool) :
+  Topo c -> procs c !! p = Some pp -> chans c !! k = Some st -> ch_buf st = Some m -> ch_closed st = false ->
+  pr_provs pp = [n] -> chan n = Some k -> k ∈ refs (OMsg k m) -> NoDup (refs (OMsg k m)) ->
+  (forall j, j ∈ cids_of (pr_provs pp') <-> j ∈ provides (OMsg k m)) ->
+  (forall i, i ∈ form_chans (pr_body0 pp') -> i ∈ form_chans (pr_body0 pp) \/ (i ∈ refs (OMsg k m) /\ i <> k)) ->
+  Topo (Cfg (<[p := pp']> (procs c)) (<[k := Chan None clk]> (chans c)) (out c)).
+Proof.
+  intros Ht Hp Hk Hb Hcl Hpv Hn Hkr Hnd Hprov Hbody.
+  assert (Hmsg : obj_in c (OMsg k m)) by (exists st; done).
+  assert (Hcp : cids_of (pr_provs pp) = [k]) by (rewrite Hpv; cbn; by rewrite Hn).
+  assert (Hkb : k ∉ form_chans (pr_body0 pp)).
+  { intros H. assert (E : OProc p pp = OMsg k m) by (eapply (topo_ref_unique c Ht _ _ k); eauto). discriminate. }
+  assert (Hkm : k ∉ provides (OMsg k m)).
+  { intros H. assert (E : OProc p pp = OMsg k m); [|discriminate].
+    eapply (topo_prov_unique c Ht _ _ k); eauto. cbn. rewrite Hcp. set_solver. }
+  assert (Hkb' : k ∉ form_chans (pr_body0 pp')).
+  { intros H. destruct (Hbody k H) as [H'|[_ H']]; done. }
+  apply (topo_recv_generic c p pp k st m pp' clk); try done.
+  - intros j Hj. right. by apply Hprov.
+  - intros i Hi. destruct (Hbody i Hi) as [H|[H _]]; auto.
+  - intros j [Hj|Hj].
+    + rewrite Hcp in Hj. apply elem_of_list_singleton in Hj as ->. right. auto.
+    + left. by apply Hprov.
+  - intros _. split; [left; rewrite Hcp; set_solver|]. split; [by right|]. split; [|done].
+    intros H. apply Hkm. by apply Hprov.
+  - intros rk M [_ Hr] j i Hj Hi. apply Hprov in Hj.
+    assert (H1 : (rk j < rk k)%nat) by (eapply (Hr (OMsg k m)); eauto).
+    destruct (Hbody i Hi) as [H|[H _]].
+    + assert (H2 : (rk k < rk i)%nat); [|lia]. eapply (Hr (OProc p pp)); eauto. cbn. rewrite Hcp. set_solver.
+    + eapply (Hr (OMsg k m)); eauto.
+Qed.
+
+(* the receiver is the client of k: the message is a positive one (it provides k) *)
+Lemma topo_recv_client c p pp k st m pp' :
+  Topo c -> procs c !! p = Some pp -> chans c !! k = Some st -> ch_buf st = Some m -> ch_closed st = false ->
+  provides (OMsg k m) = [k] -> k ∈ form_chans (pr_body0 pp) ->
+  pr_provs pp' = pr_provs pp ->
+  (forall i, i ∈ form_chans (pr_body0 pp') -> i ∈ form_chans (pr_body0 pp) \/ i ∈ refs (OMsg k m)) ->
+  k ∉ form_chans (pr_body0 pp') ->
+  Topo (Cfg (<[p := pp']> (procs c)) (<[k := Chan None false]> (chans c)) (out c)).
+Proof.
+  intros Ht Hp Hk Hb Hcl Hpm Hkb Hpv Hbody Hkb'.
+  assert (Hmsg : obj_in c (OMsg k m)) by (exists st; done).
+  apply (topo_recv_generic c p pp k st m pp' false); try done.
+  - intros j Hj. left. by rewrite <- Hpv.
+  - intros j [Hj|Hj]; [left; by rewrite Hpv|]. rewrite Hpm in Hj. apply elem_of_list_singleton in Hj as ->. right. auto.
+  - intros rk M [_ Hr] j i Hj Hi. rewrite Hpv in Hj. destruct (Hbody i Hi) as [H|H].
+    + eapply (Hr (OProc p pp)); eauto.
+    + assert (H1 : (rk j < rk k)%nat) by (eapply (Hr (OProc p pp)); eauto).
+      assert (H2 : (rk k < rk i)%nat); [|lia]. eapply (Hr (OMsg k m)); eauto. rewrite Hpm. set_solver.
+Qed.
+
 Section Step.
 Variable D : tenv.
 Variable F : list fundef.
@@ -313,5 +366,51 @@ Proof.
     + intros k' st' m' Hk' Hb'. cbn in Hk'. apply lookup_insert_Some in Hk' as [[<- <-]|[_ Hk']].
       * cbn in Hb'. injection Hb' as <-. apply Hlin. exact (lc_procs c Hl p pp Hp).
       * exact (lc_msgs c Hl k' st' m' Hk' Hb').
+Qed.
+
+(* ------------------------------------------------------------------ a process receives *)
+Lemma apply_recv_effect c k st p pp pp1 cl :
+  apply_effect (put_msg c k st None) p pp (Eff (Continue pp1) [] [] cl []) =
+  Cfg (<[p := Proc (pr_provs pp1) (pr_body0 pp1) (pr_next pp1 + 0)]> (procs c))
+      (close_all cl (<[k := Chan None (ch_closed st)]> (chans c))) (out c).
+Proof. reflexivity. Qed.
+
+Lemma close_all_one (k : cid) (C : gmap cid chan_st) (b : bool) : close_all [k] (<[k := Chan None b]> C) = <[k := Chan None true]> C.
+Proof. unfold close_all. cbn. rewrite lookup_insert. cbn. apply insert_insert. Qed.
+
+Lemma recv_on_inv pp t k : recv_on pp t = ARecv k -> t = Some k /\ multi pp = false.
+Proof. unfold recv_on. destruct t; [|discriminate]. destruct (multi pp); [discriminate|]. intros [= ->]. auto. Qed.
+
+(* what the receiving forms look like: the subject is self (then k is the own channel) or a client name *)
+Inductive recv_view (pp : proc) (k : cid) : Prop :=
+| RV_self n : pr_provs pp = [n] -> chan n = Some k -> is_fwd_body pp = false -> recv_view pp k
+| RV_client : In k (form_chans (pr_body0 pp)) -> recv_view pp k.
+
+Lemma recv_view_of pp k : pr_provs pp <> [] -> action_of Async D pp = ARecv k -> recv_view pp k.
+Proof.
+  intros Hne Ha.
+  assert (Hs : forall t, recv_on pp t = ARecv k -> t = self_chan pp -> is_fwd_body pp = false -> recv_view pp k).
+  { intros t H -> Hf. apply recv_on_inv in H as [Hk Hm]. destruct (single_provs pp Hne Hm) as [n En].
+    eapply RV_self; eauto. unfold self_chan, prov0 in Hk. by rewrite En in Hk. }
+  assert (Hc : forall n, recv_on pp (chan n) = ARecv k -> In k (name_chans n)).
+  { intros n H. apply recv_on_inv in H as [Hk _]. unfold name_chans. rewrite Hk. by left. }
+  unfold action_of, is_fwd_body in *.
+  destruct (pr_body0 pp) as [to pay cont|pay cont from k0|to l cont|from bs|x b k0|c0|c0 k0|to from d|x y from k0|fn args pt|to cont|x from k0|c0 k0|l k0] eqn:Eb;
+    simpl in Ha;
+    repeat match type of Ha with
+           | (if ?b then _ else _) = _ => destruct b eqn:?
+           end;
+    try discriminate;
+    try (unfold internal in Ha; destruct (multi pp); discriminate);
+    try (unfold send_on in Ha; repeat match type of Ha with
+           | (if ?b then _ else _) = _ => destruct b
+           | match ?x with _ => _ end = _ => destruct x
+           end; discriminate);
+    try (eapply Hs; eauto; fail);
+    try (apply RV_client; rewrite Eb; simpl; apply Hc in Ha; rewrite ?in_app_iff; auto; fail).
+  (* forward *)
+  destruct (fwd_polarity D from) as [[| |]|w|w]; try discriminate;
+    destruct (chan from) as [c|] eqn:Ec; try discriminate.
+  injection Ha as ->. apply RV_client. rewrite Eb. simpl. unfold name_chans at 2. rewrite Ec. rewrite in_app_iff. right. by left.
 Qed.
 End Step.
